@@ -19,7 +19,9 @@ RULE = ('programs of the gen_scripts grammar: exhaustive small statements (Y = t
         'forms x term kinds) under rotating LAYOUT_CATALOGUE entries, sampled larger programs (up to 7 equations, '
         'nesting <= 4, multi-line, random layouts), stress programs (two-digit lags/leads, function names that are '
         'prefixes/suffixes/namespaced versions of replaced ones, Gauss-Seidel chains in non-statement order), '
-        'sub-streams with verbatim fragments, named periods and LHS offsets, and a stream of known-defect inputs. '
+        'sub-streams with verbatim fragments, named periods and LHS offsets, regression cases of two repaired defects '
+        '(constant sub-expressions that warn/raise are accepted and evaluated; variable/called-function clashes are '
+        'rejected with ParserError), and a stream of still-open known-defect inputs. '
         'Each program x one random finite data vector x every feasible t. distinct = distinct (script text); '
         'non-trivial = accepted program whose evaluation wrote a cell')
 TRUSTED = ['CPython: the statement text means the assignment its `ast` shows (T compares the trees on every program)',
@@ -29,14 +31,15 @@ TRUSTED = ['CPython: the statement text means the assignment its `ast` shows (T 
            'text -> token tie (regex scanner, layouts) is established by the text-level model (C13/C14), here only '
            'checked through T on every generated text']
 ASSUMPTIONS = ['feasible period: LAGS <= t < len(span) - LEADS', 'series hold finite floats',
-               'no variable shares its name with a function called in the same statement; no whitespace between a '
-               'name and its `[`; names do not start with an underscore (other than `_`); numeric literals have no '
-               'exponent (violations of these guards are exhibited as known findings on every run)']
+               'no variable shares its name with a function called in the same statement (such scripts must be rejected '
+               'with ParserError; checked on every run); no whitespace between a name and its `[`; names do not start '
+               'with an underscore (other than `_`); numeric literals have no exponent (the last three guards are '
+               'violated by the code: exhibited as known findings on every run)']
 
 META = {
     "text": "Token-level theorems for ALL statements, stores, periods and operator interpretations (Ops F is a parameter, so they hold for Python/NumPy float arithmetic): the parse tree of the generated statement and of the normalised equation is the parse tree of the script with each term replaced by its store access x[t+k] and each function name by its replacement (parseExpr_map, parseStmt_code/_equation); the printed index t, t+k, t-k evaluates to t+k (index_denotes); executing the code = the script's assignment (code_denotes_script, equation_denotes_script); replacement iff the whole dotted name is a key of the reflected table (replacement_exact/_table/_untouched, keywords_not_replaced); a pass is Gauss-Seidel in list order, writes only LHS cells, reads only cells of terms (evalPass_gauss_seidel, evalPass_frame, pass_reads_writes). The model is tied to fsic.parser/build_model by exact comparison of lexemes, Python ASTs, statement order in Model.CODE and bit-exact evaluation on every generated program; a reference interpreter over the grammar AST is the oracle.",
     "design_ref": "DESIGN.md §5 M4, §6 C01, §7 rows 10, 11",
-    "note": "Token level: the text->token stage (regex scanner, all layouts) is covered here by the correspondence check only; its theorem (scan_render) belongs to the text-level model. Trusted: Lean kernel; propext/Classical.choice/Quot.sound; CPython's parser and NumPy scalar arithmetic; the harness. Known findings (name shared with a called function, space before [, leading underscore, exponent literal) are reproduced on every run.",
+    "note": "Token level: the text->token stage (regex scanner, all layouts) is covered here by the correspondence check only; its theorem (scan_render) belongs to the text-level model. Trusted: Lean kernel; propext/Classical.choice/Quot.sound; CPython's parser and NumPy scalar arithmetic; the harness. Open known findings (space before [, leading underscore, exponent literal) are reproduced on every run; the two repaired ones (statement executed by the syntax check; variable/called-function clash silently lost) are regression cases of the oracle.",
     "technique": "Lean 4 proof (parser/rewriting commutation by induction on fuel, structural induction on expressions, fold lemmas) + differential correspondence check + reference interpreter"
 }
 
@@ -108,33 +111,66 @@ def stress_programs():
     return out
 
 
-FINDING_TAGS = ('function-name-collision', 'space-before-index', 'underscore-name-mangled', 'exponent-literal',
-                'constant-subexpression-executed')
+FINDING_TAGS = ('space-before-index', 'underscore-name-mangled', 'exponent-literal')
 
 
 def finding_cases(seed):
-    """Inputs on which the unchanged code is known to break the property (DESIGN §7 rows 10, 11 and two more)."""
+    """Inputs on which the code is known to break the property and that are still open (DESIGN §7 row 11 and two more)."""
     B, C, N = gs.Bin, gs.Call, gs.Num
     Y = V('Y')
     out = []
 
     def add(tag, prog, text=None):
         out.append(mkcase(prog, text if text is not None else gs.render(prog), tag=tag, stream='finding', seed=seed))
-    add('function-name-collision', gs.Program([gs.Equation(V('log'), C('log', (V('X'),)))]))
-    add('function-name-collision', gs.Program([gs.Equation(Y, B('+', V('exp'), C('exp', (V('X'),))))]))
-    add('function-name-collision', gs.Program([gs.Equation(Y, B('*', C('max', (V('X'), N('1'))), V('max', -1)))]))
     add('space-before-index', gs.Program([gs.Equation(Y, V('W', 1))]), 'Y = W [1]')
     add('space-before-index', gs.Program([gs.Equation(Y, B('+', V('W', -1), V('X')))]), 'Y = W  [-1] + X')
     add('space-before-index', gs.Program([gs.Equation(Y, B('*', gs.Term('param', 'a', -2), V('X')))]), 'Y = {a} [-2] * X')
     for nm in gs.MANGLED_POOL:
         add('underscore-name-mangled', gs.Program([gs.Equation(Y, B('+', V(nm), N('1')))]))
     add('underscore-name-mangled', gs.Program([gs.Equation(V('_Y1'), B('*', V('X', -1), N('2')))]))
-    out.append(mkcase(gs.Program([gs.Equation(Y, B('+', C('log', (gs.Un('-', N('7')),)), V('X')))]), 'Y = log(-7) + X',
-                      stream='finding', seed=seed))
-    out.append(mkcase(gs.Program([gs.Equation(Y, B('*', V('X'), B('/', N('1'), B('-', N('2'), N('2')))))]), 'Y = X * (1 / (2 - 2))',
-                      stream='finding', seed=seed))
     add('exponent-literal', gs.Program([gs.Equation(Y, B('*', N('1e5'), V('X')))]))
     add('exponent-literal', gs.Program([gs.Equation(Y, B('+', V('X'), N('2.5e-1')))]))
+    return out
+
+
+def regression_cases(seed):
+    """Two defects repaired in /repo (a900a8c, 3f601b8), kept as ordinary oracle cases so that a regression is a new
+    VIOLATION under the old key:
+    * a script whose constant sub-expression warns or raises when executed on its own is plain valid input — accepted,
+      and evaluated like any other (strict stream, reference interpreter; NaN / ZeroDivisionError on both sides);
+    * a name that is both a variable and a function CALLED in the same statement is outside the grammar and must be
+      REJECTED with ParserError — never a silently discarded statement or a model lacking the series."""
+    B, C, N, I, U = gs.Bin, gs.Call, gs.Num, gs.IfElse, gs.Un
+    Y = V('Y')
+    out = []
+    accepted = [
+        gs.Program([gs.Equation(Y, B('+', C('log', (U('-', N('7')),)), V('X')))]),
+        gs.Program([gs.Equation(Y, B('*', V('X'), B('/', N('1'), B('-', N('2'), N('2')))))]),
+        gs.Program([gs.Equation(V('exp_'), C('log', (C('log', (C('log', (N('1'),)),)),)))]),
+        gs.Program([gs.Equation(V('H_d'), C('np.sqrt', (U('-', B('*', N('2'), N('100.0'))),)))]),
+        gs.Program([gs.Equation(V('maximum'), B('*', C('np.sqrt', (C('log', (I(V('G', 1), B('<=', N('3.25'), N('0.1')), N('0.1')),)),)),
+                                                B('+', V('T'), V('G', -3)))),
+                    gs.Equation(V('T'), B('-', V('maximum'), V('G')))]),
+        gs.Program([gs.Equation(Y, B('+', B('/', N('1.5'), B('-', N('0.5'), N('0.5'))), V('X', -1))),
+                    gs.Equation(V('Z'), B('*', Y, C('exp', (N('1000'),))))]),
+    ]
+    names = list(gs.LAYOUT_CATALOGUE)
+    for i, prog in enumerate(accepted):
+        for lname in ('plain', names[1 + i % (len(names) - 1)]):
+            L = gs.catalogue_layout(lname, random.Random(f'r{i}:{lname}'))
+            out.append(mkcase(prog, gs.render(prog, L), L.wrap_rhs, stream='regression:constant', seed=seed))
+    clashes = [
+        gs.Program([gs.Equation(V('log'), C('log', (V('X'),)))]),
+        gs.Program([gs.Equation(Y, B('+', V('exp'), C('exp', (V('X'),))))]),
+        gs.Program([gs.Equation(Y, B('+', C('exp', (V('X'),)), V('exp')))]),
+        gs.Program([gs.Equation(Y, B('*', C('max', (V('X'), N('1'))), V('max', -1)))]),
+        gs.Program([gs.Equation(Y, B('-', gs.Term('param', 'min', None), C('min', (V('X'), V('Z')))))]),
+        gs.Program([gs.Equation(V('Z'), B('+', V('X'), N('1'))), gs.Equation(V('abs'), C('abs', (V('Z', -1),)))]),
+    ]
+    for prog in clashes:
+        c = mkcase(prog, gs.render(prog), stream='regression:clash', seed=seed)
+        c['expect_reject'] = 'function-name-collision'
+        out.append(c)
     return out
 
 
@@ -189,7 +225,8 @@ def quick_cases(ctx):
         L = gs.random_layout(rng)
         cases.append(mkcase(prog, gs.render(prog, L), L.wrap_rhs, span=span,
                             stream='sub:' + ('verbatim', 'named', 'lhs-offset')[kind], seed=seed))
-    # E. known-defect inputs
+    # E. repaired defects (regression cases), then the known-defect inputs that are still open
+    cases += regression_cases(seed)
     cases += finding_cases(seed)
     return cases
 
@@ -241,10 +278,21 @@ def observe_(case, rep, want_impl=True):
     b = ec.Built(text)
     impl = {'error': b.error}
     rep.dist['stream:' + case['stream'].split(':')[0]] += 1
+    if case.get('expect_reject'):
+        # outside the grammar by the guard of the property: must be refused with the parser's own error
+        rep.dist['clash:' + (b.error or 'accepted')] += 1
+        if b.error != 'ParserError':
+            got = f'raised {b.error}' if b.error else (
+                'was accepted: symbols ' + ', '.join(f'{s.name}:{s.type.name}' for s in b.symbols if s.name) +
+                f'; {len(b.endogenous())} equation(s) kept of {len(eqs)}')
+            rep.violate(case['expect_reject'], 'a name used both as a variable and as a function called in the same '
+                        'statement must be rejected with ParserError, but the script ' + got, case)
+        rep.case(text, nontrivial=False)
+        return None
     if b.error:
         if b.executed_at_parse() and ec.has_failing_constant(prog):
-            rep.violate('constant-subexpression-executed', f'accepted-grammar script rejected at parse time with {b.error}: '
-                        f'parse_model executes the statement, a constant sub-expression raised/warned: {b.error_msg[:120]}', case)
+            rep.violate('constant-subexpression-executed', f'script inside the grammar rejected at parse time with {b.error}: a constant sub-expression raised/warned, '
+                        f'i.e. the statement was EXECUTED by the syntax check (regression of a900a8c): {b.error_msg[:120]}', case)
             rep.case(text, nontrivial=False)
             return impl
         violate('rejected', f'program of the grammar rejected with {b.error}: {b.error_msg}')
